@@ -153,3 +153,261 @@ def w_group(arg):
     acc.sample = {'crystal': cid, 'dim': c.dim, 'atoms': c.N, 'group_order': len(c.G), 'spins': c.spins is not None,
                   'checked': 'isometry, lattice map, atom map = indexmap, spins, identity, closure under product and inverse'}
     return acc.result()
+
+
+# ----------------------------------------------------------------------------------------- C20
+def char_dims(H):
+    """dimension of the invariant vector / symmetric-tensor space of a finite group of isometries (character formula)"""
+    dv = sum(np.trace(g.cartrot) for g in H) / len(H)
+    dt = sum(0.5 * (np.trace(g.cartrot) ** 2 + np.trace(g.cartrot @ g.cartrot)) for g in H) / len(H)
+    return int(round(dv)), int(round(dt))
+
+
+def basis_contract(acc, H, vlist, tlist, where, sig):
+    dv, dt = char_dims(H)
+    acc.check(len(vlist) == dv, 'vector-basis-dimension', '%s: %d vectors, invariant space has dimension %d' % (where, len(vlist), dv), sig=sig + ('vdim', dv))
+    acc.check(all(np.allclose(g.cartrot @ v, v, atol=1e-8) for g in H for v in vlist), 'vector-basis-invariant', where, sig=sig + ('vinv',))
+    if vlist:
+        acc.check(np.allclose(np.array([[a @ b for b in vlist] for a in vlist]), np.eye(len(vlist)), atol=1e-8), 'vector-basis-orthonormal', where)
+    acc.check(len(tlist) == dt, 'tensor-basis-dimension', '%s: %d tensors, invariant space has dimension %d' % (where, len(tlist), dt), sig=sig + ('tdim', dt))
+    acc.check(all(np.allclose(g.cartrot @ t @ g.cartrot.T, t, atol=1e-8) for g in H for t in tlist), 'tensor-basis-invariant', where, sig=sig + ('tinv',))
+    acc.check(all(np.allclose(t, t.T, atol=1e-10) for t in tlist), 'tensor-basis-symmetric', where)
+    if tlist:
+        acc.check(np.allclose(np.array([[np.sum(a * b) for b in tlist] for a in tlist]), np.eye(len(tlist)), atol=1e-8), 'tensor-basis-orthonormal', where)
+
+
+def site_contract(acc, c, cid, rng):
+    from onsager import crystal
+    thr = max(10 * c.threshold, 1e-7)
+    # point groups fix their site with zero lattice shift
+    for ci, atoms in enumerate(c.basis):
+        for i, u in enumerate(atoms):
+            H = list(c.pointG[ci][i])
+            acc.check(all(np.allclose(g.rot @ u + g.trans, u, atol=thr) for g in H), 'point-group-fixes-site', '%s site (%d,%d)' % (cid, ci, i), sig=('fix', ci))
+            stab = [g for g in c.G if g.indexmap[ci][i] == i]
+            acc.check(len(H) == len(stab), 'point-group-is-the-full-stabiliser', '(%d,%d): %d vs %d' % (ci, i, len(H), len(stab)))
+            vb = c.VectorBasis((ci, i))
+            basis_contract(acc, H, c.vectlist(vb), c.SymmTensorBasis((ci, i)), '%s site (%d,%d) |H|=%d' % (cid, ci, i, len(H)), (cid, ci))
+    # Wyckoff sets == orbits (brute force through geometry, not through indexmap)
+    orbits = set()
+    for ci, atoms in enumerate(c.basis):
+        for i, u in enumerate(atoms):
+            orb = set()
+            for g in c.G:
+                v = g.rot @ u + g.trans
+                for j, w in enumerate(atoms):
+                    if np.allclose(_inhalf(v - w), 0, atol=thr): orb.add((ci, j))
+            orbits.add(frozenset(orb))
+    acc.check(set(c.Wyckoff) == orbits, 'wyckoff-sets-are-orbits', '%r vs %r' % (sorted(map(sorted, c.Wyckoff)), sorted(map(sorted, orbits))), sig=('wy',))
+    # Wyckoffpos: complete orbit without duplicates; adding it keeps the group
+    for trial in range(2):
+        u = rng.uniform(0.05, 0.45, c.dim) if trial == 0 else np.round(rng.uniform(0, 1, c.dim) * 4) / 4
+        pos = c.Wyckoffpos(u)
+        spec = []
+        for g in c.G:
+            v = g.rot @ u + g.trans
+            if not any(np.allclose(_inhalf(v - w), 0, atol=thr) for w in spec): spec.append(v)
+        acc.check(len(pos) == len(spec) and all(any(np.allclose(_inhalf(v - w), 0, atol=thr) for w in pos) for v in spec),
+                  'wyckoffpos-is-complete-orbit-without-duplicates', 'u=%r: %d positions, orbit has %d' % (u, len(pos), len(spec)), sig=('wp', len(spec)))
+        try:
+            c2 = c.addbasis(pos, ['Zz'])
+            acc.check(len(c2.G) == len(c.G), 'adding-full-orbit-keeps-symmetry', 'u=%r |G| %d -> %d' % (u, len(c.G), len(c2.G)), sig=('add',))
+        except Exception as ex:
+            acc.check(False, 'adding-full-orbit-keeps-symmetry', 'addbasis raised %s: %s' % (type(ex).__name__, ex))
+    # FullVectorBasis: orthonormal, equivariant
+    for ci in range(len(c.basis)):
+        VB, VV = c.FullVectorBasis(ci)
+        if len(VB) == 0: continue
+        gram = np.array([[np.sum(a * b) for b in VB] for a in VB])
+        acc.check(np.allclose(gram, np.eye(len(VB)), atol=1e-8), 'full-vector-basis-orthonormal', 'species %d' % ci, sig=('fvb', ci))
+        ok = True
+        for g in c.G:
+            for vb in VB:
+                for i in range(len(c.basis[ci])):
+                    if not np.allclose(g.cartrot @ vb[i], vb[g.indexmap[ci][i]], atol=1e-8): ok = False
+        acc.check(ok, 'full-vector-basis-equivariant', 'species %d' % ci)
+
+
+def subgroups(ops, dim):
+    key = lambda g: g.rot.tobytes()
+    elems = {key(g): g for g in ops}
+    ident = [g for g in ops if np.all(g.rot == np.eye(dim, dtype=int))][0]
+    def close(gens):
+        S = {key(g): g for g in gens}; S[key(ident)] = ident
+        changed = True
+        while changed:
+            changed = False
+            for a in list(S.values()):
+                for b in list(S.values()):
+                    k = np.dot(a.rot, b.rot).tobytes()
+                    if k not in S: S[k] = elems[k]; changed = True
+        return frozenset(S.keys())
+    subs = set()
+    L = list(ops)
+    for a in L: subs.add(close([a]))
+    for a, b in itertools.combinations(L, 2): subs.add(close([a, b]))
+    for s in list(subs):
+        for cgen in L:
+            if cgen.rot.tobytes() not in s: subs.add(close([elems[k] for k in s] + [cgen]))
+    return [[elems[k] for k in s] for s in subs]
+
+
+def holohedries(tier):
+    from onsager import crystal
+    C = crystal.Crystal
+    th, ph = 0.37, 0.81
+    Rz = np.array([[np.cos(th), -np.sin(th), 0], [np.sin(th), np.cos(th), 0], [0, 0, 1]])
+    Rx = np.array([[1, 0, 0], [0, np.cos(ph), -np.sin(ph)], [0, np.sin(ph), np.cos(ph)]])
+    hexl = np.array([[0.5, 0.5, 0], [-np.sqrt(0.75), np.sqrt(0.75), 0], [0, 0, 1.6]])
+    r2 = lambda t: np.array([[np.cos(t), -np.sin(t)], [np.sin(t), np.cos(t)]])
+    hex2 = np.array([[1, -0.5], [0, np.sqrt(0.75)]])
+    out = [('Oh', lambda: C(np.eye(3), [[np.zeros(3)]])), ('D6h', lambda: C(hexl, [[np.zeros(3)]])),
+           ('Oh-rotated', lambda: C(Rz @ Rx, [[np.zeros(3)]])), ('D6h-rotated', lambda: C(Rz @ Rx @ hexl, [[np.zeros(3)]])),
+           ('D4-2D', lambda: C(np.eye(2), [[np.zeros(2)]])), ('D6-2D', lambda: C(hex2, [[np.zeros(2)]])),
+           ('D4-2D-rotated', lambda: C(r2(0.41), [[np.zeros(2)]])), ('D6-2D-rotated', lambda: C(r2(0.41) @ hex2, [[np.zeros(2)]])),
+           ('D2-2D-rect-rotated', lambda: C(r2(np.pi / 6) @ np.diag([1., 1.3]), [[np.zeros(2)]]))]
+    if tier == 'thorough':
+        out += [('Oh-rotated-b', lambda: C(Rx @ Rz @ Rx, [[np.zeros(3)]])), ('D6h-rotated-b', lambda: C(Rx @ Rz @ hexl, [[np.zeros(3)]])),
+                ('D2h-ortho-rotated', lambda: C(Rz @ Rx @ np.diag([1., 1.2, 1.5]), [[np.zeros(3)]]))]
+    return out
+
+
+def w_sites(arg):
+    kind, idx, tier, seed = arg
+    from vf.common import repo_on_path; repo_on_path()
+    import warnings; warnings.filterwarnings('ignore')
+    from onsager import crystal
+    from vf.rtc import catalogue
+    rng = np.random.default_rng(seed * 13 + idx)
+    if kind == 'cat':
+        cid, f = catalogue.builders(tier, seed)[idx]
+        acc = Acc(cid); c = f()['crys']
+        site_contract(acc, c, cid, rng)
+        acc.sample = {'crystal': cid, 'wyckoff_sets': len(c.Wyckoff), 'checked': 'point groups, Wyckoff orbits, Wyckoffpos, invariant bases vs character formula, FullVectorBasis, addbasis'}
+        return acc.result()
+    name, f = holohedries(tier)[idx]
+    acc = Acc('subgroups-of-' + name); c = f()
+    subs = subgroups(list(c.G), c.dim)
+    for H in subs:
+        vb = reduce(crystal.CombineVectorBasis, [crystal.VectorBasis(*g.eigen()) for g in H])
+        tb = reduce(crystal.CombineTensorBasis, [crystal.SymmTensorBasis(*g.eigen()) for g in H])
+        types = sorted(crystal.GroupOp.optype(g.rot) for g in H)
+        basis_contract(acc, H, crystal.Crystal.vectlist(vb), tb, '%s subgroup of order %d with operation types %r' % (name, len(H), types), (name, len(H), tuple(types)))
+    acc.sample = {'holohedry': name, 'subgroups_enumerated': len(subs), 'exhaustive': True}
+    return acc.result()
+
+
+# ----------------------------------------------------------------------------------------- C21
+def brute_jumps(c, chem, cutoff, closest=None, win=3):
+    out = []
+    basis = c.basis[chem]
+    # the documented default closestdistance=0 still excludes straight-line paths THROUGH a site of another species
+    # (distance <= requested distance, up to round-off): derived from the code and its docstring
+    if closest is None: closest = 0.
+    if np.ndim(closest) == 0: closest = [closest] * len(c.basis)
+    for i, u0 in enumerate(basis):
+        for j, u1 in enumerate(basis):
+            for n in itertools.product(range(-win, win + 1), repeat=c.dim):
+                dx = c.lattice @ (np.array(n) + u1 - u0)
+                d2 = dx @ dx
+                if 1e-12 < d2 < cutoff ** 2:
+                    ok = True
+                    if closest is not None:
+                        x0 = c.lattice @ u0
+                        for cc, atoms in enumerate(c.basis):
+                            if cc == chem: continue
+                            for ua in atoms:
+                                for m in itertools.product(range(-win, win + 1), repeat=c.dim):
+                                    xa = c.lattice @ (np.array(m) + ua) - x0
+                                    t = xa @ dx
+                                    if 0 <= t <= d2:
+                                        if (xa @ xa * d2 - t * t) / d2 <= closest[cc] ** 2 + 1e-9: ok = False
+                    if ok: out.append((i, j, dx))
+    return out
+
+
+def jump_contract(acc, c, cid, chem, cutoff, closest, label):
+    key = lambda t: (t[0], t[1]) + tuple(np.round(t[2], 6) + 0.)
+    try:
+        jn = c.jumpnetwork(chem, cutoff, closest) if closest is not None else c.jumpnetwork(chem, cutoff)
+    except Exception as ex:
+        acc.check(False, 'jumpnetwork-no-exception', '%s: %s' % (type(ex).__name__, ex)); return
+    flat = [(i, j, dx) for jl in jn for (i, j), dx in jl]
+    A = [key(t) for t in flat]; B = set(key(t) for t in brute_jumps(c, chem, cutoff, closest))
+    sig = (cid, label)
+    acc.check(len(A) == len(set(A)), 'each-jump-once', '%s: %d jumps, %d distinct' % (label, len(A), len(set(A))), sig=sig + ('once',))
+    extra, missing = set(A) - B, B - set(A)
+    acc.check(not extra, 'no-jump-beyond-cutoff-or-obstructed', '%s: %d extra, e.g. %r' % (label, len(extra), sorted(extra)[:1]), sig=sig + ('extra',))
+    acc.check(not missing, 'every-allowed-jump-present', '%s: %d missing, e.g. %r' % (label, len(missing), sorted(missing)[:1]), sig=sig + ('missing',))
+    # classes closed under G and under reversal, and classes are single orbits
+    cls = {}
+    for n, jl in enumerate(jn):
+        for (i, j), dx in jl: cls[key((i, j, dx))] = n
+    closed = rev = True
+    for n, jl in enumerate(jn):
+        for (i, j), dx in jl:
+            if cls.get(key((j, i, -dx))) != n: rev = False
+            for g in c.G:
+                if cls.get(key((g.indexmap[chem][i], g.indexmap[chem][j], g.cartrot @ dx))) != n: closed = False
+    acc.check(rev, 'classes-closed-under-reversal', label, sig=sig + ('rev',))
+    acc.check(closed, 'classes-closed-under-space-group', label, sig=sig + ('g',))
+    single = True
+    for jl in jn:
+        (i0, j0), dx0 = jl[0]
+        orb = set()
+        for g in c.G:
+            a, b, d = g.indexmap[chem][i0], g.indexmap[chem][j0], g.cartrot @ dx0
+            orb.add(key((a, b, d))); orb.add(key((b, a, -d)))
+        if orb != set(key((i, j, dx)) for (i, j), dx in jl): single = False
+    acc.check(single, 'each-class-is-one-orbit', label, sig=sig + ('orbit',))
+    # lattice form encodes the same jumps
+    try:
+        jl2 = c.jumpnetwork2lattice(chem, jn)
+        ok = len(jl2) == len(jn)
+        for lat, car in zip(jl2, jn):
+            if len(lat) != len(car): ok = False; continue
+            for ((i, j), R), ((i2, j2), dx) in zip(lat, car):
+                if (i, j) != (i2, j2) or not np.allclose(c.lattice @ (np.array(R) + c.basis[chem][j] - c.basis[chem][i]), dx, atol=1e-7): ok = False
+        acc.check(ok, 'lattice-form-encodes-same-jumps', label, sig=sig + ('latt',))
+    except Exception as ex:
+        acc.check(False, 'lattice-form-encodes-same-jumps', '%s: %s' % (type(ex).__name__, ex))
+
+
+def w_jumps(arg):
+    idx, tier, seed = arg
+    from vf.common import repo_on_path; repo_on_path()
+    import warnings; warnings.filterwarnings('ignore')
+    from vf.rtc import catalogue
+    cid, f = catalogue.builders(tier, seed)[idx]
+    e = f(); c = e['crys']; acc = Acc(cid)
+    rng = np.random.default_rng(seed * 11 + idx)
+    for chem in range(len(c.basis)):
+        for nshell in ((1, 2) if tier == 'quick' else (1, 2, 3)):
+            try: cutoff = catalogue.shell_cutoff(c, chem, nshell)
+            except IndexError: continue
+            if cutoff > 2.2: continue
+            jump_contract(acc, c, cid, chem, cutoff, None, 'chem %d cutoff %.4f' % (chem, cutoff))
+            if len(c.basis) > 1:
+                # obstruction distances midway between the distinct perpendicular distances of other atoms to the jump segments
+                ds = sorted(set(np.round(perp_distances(c, chem, cutoff), 5)))
+                mids = [0.5 * (a + b) for a, b in zip(ds, ds[1:]) if b - a > 1e-3][:2] or ([ds[0] * 0.5] if ds else [])
+                for cd in mids:
+                    jump_contract(acc, c, cid, chem, cutoff, cd, 'chem %d cutoff %.4f closest %.4f' % (chem, cutoff, cd))
+                    per = [cd * (1.3 if k % 2 else 0.6) for k in range(len(c.basis))]
+                    jump_contract(acc, c, cid, chem, cutoff, per, 'chem %d cutoff %.4f closest per species %s' % (chem, cutoff, np.round(per, 4).tolist()))
+    acc.sample = {'crystal': cid, 'checked': 'jump set == brute force window enumeration (with and without obstruction), once each, classes = orbits under G and reversal, lattice form'}
+    return acc.result()
+
+
+def perp_distances(c, chem, cutoff, win=2):
+    out = []
+    for (i, j, dx) in brute_jumps(c, chem, cutoff, None, win):
+        d2 = dx @ dx; x0 = c.lattice @ c.basis[chem][i]
+        for cc, atoms in enumerate(c.basis):
+            if cc == chem: continue
+            for ua in atoms:
+                for m in itertools.product(range(-win, win + 1), repeat=c.dim):
+                    xa = c.lattice @ (np.array(m) + ua) - x0
+                    t = xa @ dx
+                    if 0 <= t <= d2: out.append(np.sqrt(max((xa @ xa * d2 - t * t) / d2, 0)))
+    return out
